@@ -460,6 +460,11 @@ def build_inference(pg, sc):
             n = 3
         else:
             coal = lambda N, n=n: pg.Coalescent(n=n, demography=pg.Demography(pop_sizes={'pop_0': N}), parallelize=False, pbar=False)
+    elif spec['problem'] == 'alpha':
+        # a parameter that is part of the STATE SPACE's identity (the model), not of the demography
+        true = dict(alpha=spec['true'][0])
+        bounds = dict(alpha=(1.05, 1.95))
+        coal = lambda alpha, n=max(3, n): pg.Coalescent(n=n, model=pg.BetaCoalescent(alpha=alpha), parallelize=False, pbar=False)
     elif spec['problem'] == 'epoch':
         true = dict(N1=spec['true'][0], t=spec['true'][1])
         bounds = dict(N1=(0.1, 10.0), t=(0.05, 3.0))
@@ -492,6 +497,8 @@ def rand_inference_scenario(rng, quick):
                 loss=rng.choice(['sq', 'l2', 'poisson']), defn=rng.choice(['lambda', 'def']) if problem == 'size' else 'lambda',
                 n_runs=rng.randint(1, 3), seed=rng.choice([None, rng.randint(0, 10 ** 6), rng.randint(0, 10 ** 6)]),
                 cache=rng.random() < 0.7, maxiter=rng.randint(2, 5))
+    if problem == 'size' and spec['defn'] == 'lambda' and spec['maxiter'] % 2 == 0:
+        spec.update(problem='alpha', true=[[1.3, 1.5, 1.7][spec['maxiter'] % 3], 0.5], x0=[[1.2, 1.6, 1.8][spec['n_runs'] % 3], 0.75])
     return dict(kind='inf', spec=spec, run=rng.random() < 0.7, route=rng.choice(['json', 'file']),
                 cycles=rng.choice([1, 1, 2]), n_boot=rng.choice([0, 0, 1, 3]))
 
